@@ -48,16 +48,17 @@ static cell_type_parameters ctype(int cls, Rng& g, bool same_strengths) {
     return c;
 }
 
-static Tissue make_tissue(Rng& g, int max_cells) {
-    Tissue t; int fam = g.range(0, 5); t.uniform_strengths = g.coin(0.6);
+static Tissue make_tissue(Rng& g, int max_cells, bool no_epi_pairs = false, bool dense = false) {
+    Tissue t; int fam = dense ? 0 : g.range(0, 5); t.uniform_strengths = g.coin(0.6);
     const bool pow2 = g.coin(0.3);
     double lmin = pow2 ? std::ldexp(1.0, g.range(-5, -2)) : g.logu(0.03, 0.3), ca = pow2 ? std::ldexp(1.0, g.range(-5, -2)) : g.logu(0.02, 0.3), cr = pow2 ? std::ldexp(1.0, g.range(-5, -2)) : g.logu(0.02, 0.3);
     t.P.min_edge_len_ = lmin; t.P.contact_cutoff_adhesion_ = ca; t.P.contact_cutoff_repulsion_ = cr; t.P.time_step_ = 1; t.P.damping_coefficient_ = 1; t.P.simulation_duration_ = 1; t.P.sampling_period_ = 1;
     auto add = [&](const gen::TriMesh& m, int cls) { t.meshes.push_back(m); t.cls.push_back(cls); };
     auto blob = [&](double r, double x, double y, double z) { gen::TriMesh m; int k = g.range(0, 3); if (k == 0) m = gen::icosphere(g.range(1, 2)); else if (k == 1) m = gen::box(g.range(1, 4), 1, g.uni(0.6, 1.2), g.uni(0.6, 1.2)); else if (k == 2) m = gen::uvsphere(g.range(5, 12), g.range(4, 8)); else { m = gen::icosphere(2); gen::star_deform(m, g, 0.2); }
         if (g.coin(0.7)) gen::jitter(m, g, 0.04); gen::rotate(m, gen::rot_random(g)); gen::scale(m, r, r, r); gen::translate(m, x, y, z); return m; };
-    auto rcls = [&]() { double u = g.uni(); return u < 0.4 ? 0 : u < 0.55 ? 1 : u < 0.7 ? 2 : u < 0.85 ? 3 : 4; };
-    if (fam <= 2) { t.family = "cluster"; int n = g.range(2, max_cells); double spread = std::cbrt((double)n) * g.uni(0.7, 1.3);
+    bool have_epi = false;
+    auto rcls = [&]() { double u = g.uni(); int c = u < 0.4 ? 0 : u < 0.55 ? 1 : u < 0.7 ? 2 : u < 0.85 ? 3 : 4; if (no_epi_pairs && c == 0) { if (have_epi) c = 2; have_epi = true; } return c; };
+    if (fam <= 2) { t.family = "cluster"; int n = dense ? max_cells : g.range(2, max_cells); double spread = std::cbrt((double)n) * (dense ? g.uni(0.45, 0.6) : g.uni(0.7, 1.3));
         for (int k = 0; k < n; k++) add(blob(g.uni(0.4, 0.8), g.uni(-spread, spread), g.uni(-spread, spread), g.uni(-spread, spread)), rcls()); }
     else if (fam == 3) { t.family = "nucleus_in_cell"; gen::TriMesh outer = gen::icosphere(g.range(2, 3)); gen::scale(outer, 1, 1, 1); add(outer, 0); double r = g.uni(0.4, 0.95); add(blob(r, g.uni(-0.1, 0.1) * (1 - r), 0, 0), 3); if (g.coin()) add(blob(0.6, 1.6 + g.uni(-0.2, 0.2), 0, 0), rcls()); }
     else if (fam == 4) { t.family = "cell_in_ecm"; gen::TriMesh bx = gen::box(g.range(2, 5), 1, 1, 1); add(bx, 1); double r = g.uni(0.5, 1.05); add(blob(r, g.uni(-0.1, 0.1), g.uni(-0.1, 0.1), 0), 0); if (g.coin()) add(blob(0.5, g.uni(-0.4, 0.4), g.uni(-0.4, 0.4), g.uni(-0.4, 0.4)), 0); }
@@ -106,7 +107,8 @@ static bool pregate_pair(const node& n, const face& f) {
 static std::string tissue_case(const Args& a, long i) {
     Rng g(a.seed, (uint64_t)i, 0x06); Case c(i);
     Tissue t; std::vector<cell_ptr> A;
-    try { t = make_tissue(g, (int)a.geti("max_cells", 8)); A = build(t); } catch (const std::exception& e) { c.v = "skip"; c.msg = std::string("generator mesh rejected: ") + e.what(); return c.line(); }
+    const bool no_epi = a.geti("no_epi_pairs", 0) != 0, dense = a.geti("dense", 0) != 0; const int repeat = (int)a.geti("repeat", 1);
+    try { t = make_tissue(g, (int)a.geti("max_cells", 8), no_epi, dense); A = build(t); } catch (const std::exception& e) { c.v = "skip"; c.msg = std::string("generator mesh rejected: ") + e.what(); return c.line(); }
     const double cmax = std::max(t.P.contact_cutoff_adhesion_, t.P.contact_cutoff_repulsion_);
     // positions before the run (model 1/2 snap coupled pairs together afterwards)
     std::vector<std::vector<V3>> X0(A.size()); for (size_t k = 0; k < A.size(); k++) for (const node& n : cell_tester::nodes(*A[k])) X0[k].push_back(vpos(n));
@@ -167,9 +169,38 @@ static std::string tissue_case(const Args& a, long i) {
         R fscale = std::max(fmax, (R)1e-300);
         if (!(maxdiff <= 1e-9L * fscale)) c.viol("c06.forces_differ_from_all_pairs_evaluation", "contact forces computed through the spatial grid differ from the same rules applied to all node-face pairs (max difference " + std::to_string((double)(maxdiff / fscale)) + " of the largest force)");
     }
+    // ---- repeated evaluation on fresh copies with all threads: a lost update in a concurrent force accumulation shows as a net force -------------
+    long repeats_done = 0;
+    for (int rp = 1; rp < repeat && c.v != "viol"; rp++) { std::vector<cell_ptr> Rr = build(t); omp_set_num_threads(a.threads); model_t mr(t.P); mr.run(Rr); repeats_done++;
+        V3 s2; R sa2 = 0; for (auto& cp : Rr) for (const node& n : cell_tester::nodes(*cp)) if (n.is_used()) { V3 f = vfor(n); s2 += f; sa2 += f.norm(); }
+        if (sa2 > 0 && !(s2.norm() <= 1e-10L * sa2)) c.viol("c07.net_contact_force", "contact forces do not add up to zero over the tissue in repetition " + std::to_string(rp) + " with " + std::to_string(a.threads) + " threads: |sum F| = " + std::to_string((double)(s2.norm() / sa2)) + " x sum |F|"); }
+    // ---- second contact phase after the cells were pulled apart and every node made ineligible for coupling: nothing may survive -----------------
+    long phase2_couplings = 0; bool did_phase2 = false;
+#if CONTACT_MODEL_INDEX == 1 || CONTACT_MODEL_INDEX == 2
+    if (couplings > 0 && c.v != "viol") { did_phase2 = true;
+        V3 ctr; long nn = 0; for (size_t k = 0; k < A.size(); k++) for (const node& n : cell_tester::nodes(*A[k])) if (n.is_used()) { ctr += vpos(n); nn++; } ctr = ctr / (R)nn;
+        // move every cell away from the tissue centre by 4x its offset (cells separate by far more than the cut-offs), make curvature thresholds 0
+        for (size_t k = 0; k < A.size(); k++) { V3 cc; long m = 0; for (const node& n : cell_tester::nodes(*A[k])) if (n.is_used()) { cc += vpos(n); m++; } cc = cc / (R)m; V3 sh = (cc - ctr) * 4 + V3(30.0 * (double)k, 0, 0);
+            for (node& n : cell_tester::nodes(*A[k])) if (n.is_used()) { V3 x = vpos(n) + sh; cell_tester::pos(n).reset((double)x.x, (double)x.y, (double)x.z); }
+            A[k]->get_cell_type()->surface_coupling_max_curvature_ = 0.0; }
+        for (auto& cp : A) { cp->apply_internal_forces(0.0); for (node& n : cell_tester::nodes(*cp)) if (n.is_used()) n.set_force(vec3(0, 0, 0)); }
+        std::vector<std::vector<V3>> X1(A.size()); for (size_t k = 0; k < A.size(); k++) for (const node& n : cell_tester::nodes(*A[k])) X1[k].push_back(vpos(n));
+        omp_set_num_threads(a.threads); model.run(A);
+        for (size_t k = 0; k < A.size(); k++) { const auto& nl = cell_tester::nodes(*A[k]); for (size_t ni = 0; ni < nl.size(); ni++) if (nl[ni].is_used()) {
+                std::vector<std::pair<unsigned, unsigned>> cps;
+#if CONTACT_MODEL_INDEX == 1
+                if (cell_tester::coupled(nl[ni]).has_value()) cps.push_back(cell_tester::coupled(nl[ni]).value());
+#else
+                for (auto& kv : cell_tester::coupled_map(nl[ni])) cps.push_back({kv.first, kv.second.first});
+#endif
+                for (auto& cp : cps) { phase2_couplings++; R d = (cp.first < A.size() && cp.second < X1[cp.first].size()) ? (X1[k][ni] - X1[cp.first][cp.second]).norm() : (R)INFINITY;
+                    if (!(d < t.P.contact_cutoff_adhesion_ * (1 + 1e-9))) c.viol("c07.coupling_beyond_adhesion_cutoff:after_cells_moved_apart", "after the cells were moved apart a node is still coupled to a node " + std::to_string((double)(d / t.P.contact_cutoff_adhesion_)) + " adhesion cut-offs away");
+                    if (!(vpos(nl[ni]) - X1[k][ni]).norm() == 0 && d > t.P.contact_cutoff_adhesion_) c.viol("c07.node_displaced_by_stale_coupling", "a node was moved by a coupling to a node beyond the cut-off"); } } }
+    }
+#endif
     c.nontrivial = within > 0; c.sig = hash_combine(hash_combine((uint64_t)within, (uint64_t)presented), hash_combine((uint64_t)forced, hash_double((double)sabs)));
     c.obs.s("family", t.family).i("cells", (long)A.size()).i("pairs_within_cutoff", within).i("pairs_gated_out", gated_out).i("pairs_presented", (long)presented).i("nodes_with_force", forced).i("couplings", couplings).b("all_pairs_comparison", didB).d("all_pairs_maxdiff_over_fmax", fmax > 0 ? (double)(maxdiff / fmax) : 0.0)
-        .d("net_over_sumabs", sabs > 0 ? (double)(sum.norm() / sabs) : 0.0).d("lmin", t.P.min_edge_len_).d("cutoff_adh", t.P.contact_cutoff_adhesion_).d("cutoff_rep", t.P.contact_cutoff_repulsion_).d("offset", t.offset).b("epi_epi", t.has_epi_epi).i("threads", a.threads);
+        .i("repeats", repeats_done).b("second_phase", did_phase2).i("second_phase_couplings", phase2_couplings).d("net_over_sumabs", sabs > 0 ? (double)(sum.norm() / sabs) : 0.0).d("lmin", t.P.min_edge_len_).d("cutoff_adh", t.P.contact_cutoff_adhesion_).d("cutoff_rep", t.P.contact_cutoff_repulsion_).d("offset", t.offset).b("epi_epi", t.has_epi_epi).i("threads", a.threads);
     return c.line();
 }
 
@@ -240,7 +271,7 @@ static int cmd_contact(const Args& a) {
         auto str = [&](const std::string& k) -> std::string { size_t p = L.find("\"" + k + "\":\""); if (p == std::string::npos) return ""; size_t s0 = p + k.size() + 4; return L.substr(s0, L.find('"', s0) - s0); };
         auto flag = [&](const std::string& k) -> bool { size_t p = L.find("\"" + k + "\":"); return p != std::string::npos && L.compare(p + k.size() + 3, 4, "true") == 0; };
         if (L.find("\"v\":\"skip\"") != std::string::npos) { agg.skipped++; continue; }
-        if (mode == "tissue") { for (const char* k : {"pairs_within_cutoff", "pairs_gated_out", "pairs_presented", "nodes_with_force", "couplings"}) agg.bin(k, num(k)); agg.bin("family:" + str("family")); if (flag("all_pairs_comparison")) agg.bin("all_pairs_comparisons"); if (flag("epi_epi")) agg.bin("tissues_with_epithelial_pairs"); if (num("cells") == 1) agg.bin("single_cell_tissues");
+        if (mode == "tissue") { for (const char* k : {"pairs_within_cutoff", "pairs_gated_out", "pairs_presented", "nodes_with_force", "couplings"}) agg.bin(k, num(k)); agg.bin("family:" + str("family")); agg.bin("repeated_runs", num("repeats")); if (flag("second_phase")) agg.bin("second_phase_histories"); if (flag("all_pairs_comparison")) agg.bin("all_pairs_comparisons"); if (flag("epi_epi")) agg.bin("tissues_with_epithelial_pairs"); if (num("cells") == 1) agg.bin("single_cell_tissues");
             size_t p = L.find("\"all_pairs_maxdiff_over_fmax\":"); if (p != std::string::npos) agg.maxi("all_pairs_maxdiff_over_fmax", atof(L.c_str() + p + 30)); p = L.find("\"net_over_sumabs\":"); if (p != std::string::npos) agg.maxi("net_force_over_sumabs", atof(L.c_str() + p + 18)); }
         else { agg.bin("pair:" + str("pair")); if (flag("forbidden_side")) agg.bin("forbidden_side_cases"); if (flag("coupled")) agg.bin("coupled_cases"); agg.bin("region:" + std::to_string(num("region"))); }
         if (flag("nt")) { agg.nontrivial++; size_t p = L.find("\"sig\":\""); if (p != std::string::npos) agg.sigs[strtoull(L.substr(p + 7, 16).c_str(), nullptr, 16)] = 1; if (mode != "tissue") agg.bin("pair_with_force_or_coupling:" + str("pair")); }
